@@ -33,7 +33,7 @@ type stub struct {
 	srv      *httptest.Server
 	url      string
 	mu       sync.Mutex
-	answer   int  // what /healthz answers: HTTP status; -1 hang; -2 close the connection; 1200 = 200 with a body other than "ok"
+	answer   int  // what /healthz answers: HTTP status; -1 hang; -2 close the connection; -4 headers 200 then the body hangs; 1200 = 200 with a body other than "ok"
 	dead     bool // nothing listens at url: connection refused
 	inSpec   bool // some spelling of this stub is a server of the current spec
 	mayRecv  bool // ... and at least one such spelling is not marked disabled (spellings are distinct endpoints for the gateway)
@@ -54,6 +54,18 @@ func (s *stub) ServeHTTP(w http.ResponseWriter, r *http.Request) {
 		}
 		switch a := s.answer; {
 		case a == -1: // hang until the client gives up (its timeout is 5 s)
+			s.mu.Unlock()
+			select {
+			case <-r.Context().Done():
+			case <-time.After(8 * time.Second):
+			}
+			s.mu.Lock()
+		case a == -4: // the headers arrive (200), the body never does: the client times out while reading the body
+			w.Header().Set("Content-Length", "2")
+			w.WriteHeader(200)
+			if f, ok := w.(http.Flusher); ok {
+				f.Flush()
+			}
 			s.mu.Unlock()
 			select {
 			case <-r.Context().Done():
@@ -150,6 +162,8 @@ func answersText(op DOp) string {
 			l[i] = "hang"
 		case -2:
 			l[i] = "close"
+		case -4:
+			l[i] = "200-then-body-hangs"
 		case 1200:
 			l[i] = "200(not ok)"
 		default:
@@ -218,6 +232,8 @@ func readableD(cs DCase) string {
 			fmt.Fprintf(&b, "sync servers=%v subsets=%v /healthz answers=%s", s, subs, answersText(op))
 		case "trigger":
 			fmt.Fprintf(&b, "trigger(%s) /healthz answers=%s", refName(op.Stub), answersText(op))
+		case "reset":
+			fmt.Fprintf(&b, "ResetTransport(%s)", refName(op.Stub))
 		case "request":
 			fmt.Fprintf(&b, "request for policy %d", op.Policy)
 		}
@@ -296,6 +312,10 @@ func runDispatch(c *rig.Ctx, cs DCase, record bool, st *stats) bool {
 			ops = append(ops, o)
 		case "trigger":
 			ops = append(ops, lib.Op{Op: "trigger", N: hexOf(d.Stub), Up: upOf(d)})
+		case "reset":
+			// EndpointInfo.ResetTransport(): the model has no transports; for it the op is EnsureGatewayHealthCheck, which
+			// changes nothing in a quiescent state — and nothing observable may change on the real code either
+			ops = append(ops, lib.Op{Op: "ensure", N: hexOf(d.Stub), Up: upOf(d)})
 		case "request":
 			ops = append(ops, lib.Op{Op: "match", Policy: d.Policy}, lib.Op{Op: "pop", Picker: matches})
 			matches++
@@ -323,7 +343,30 @@ func runDispatch(c *rig.Ctx, cs DCase, record bool, st *stats) bool {
 	}
 	w := lib.NewWorld()
 	w.Timeout = quiesceTimeout
-	w.HealthFn = controllers.GatewayHealthCheck // the real probe: GET /healthz on the stub
+	// the real probe (GET /healthz through the endpoint's own clientset), one at a time, so that every /healthz request a
+	// stub sees can be attributed to the endpoint whose health it decides: it must arrive at that endpoint's server
+	var probeMu sync.Mutex
+	var targetViol []string
+	w.HealthFn = func(e *clusters.EndpointInfo) bool {
+		probeMu.Lock()
+		defer probeMu.Unlock()
+		before := make([]int, len(ss))
+		for j, s := range ss {
+			s.mu.Lock()
+			before[j] = s.probes
+			s.mu.Unlock()
+		}
+		r := controllers.GatewayHealthCheck(e)
+		for j, s := range ss {
+			s.mu.Lock()
+			n := s.probes - before[j]
+			s.mu.Unlock()
+			if n > 0 && !(e.Endpoint == s.url || strings.HasPrefix(e.Endpoint, s.url+"/")) {
+				targetViol = append(targetViol, fmt.Sprintf("the health probe of endpoint %s was received by %s (%d /healthz requests): the answer of another server decides this endpoint's health", e.Endpoint, s.url, n))
+			}
+		}
+		return r
+	}
 	defer w.Stop()
 	disp := dispatcher.NewDispatcher(nil, false)
 	impl := make([]lib.Step, len(ops))
@@ -379,6 +422,14 @@ func runDispatch(c *rig.Ctx, cs DCase, record bool, st *stats) bool {
 				w.SetUp(ops[k].Up)
 				if e, ok := w.Load(ops[k].N); ok {
 					e.TriggerHealthCheck()
+				}
+			case "reset":
+				setHealth(d)
+				w.SetUp(ops[k].Up)
+				if e, ok := w.Load(ops[k].N); ok {
+					if err := e.ResetTransport(); err != nil {
+						opErr = "ResetTransport: " + err.Error()
+					}
 				}
 			case "request":
 				if w.CI == nil {
@@ -517,6 +568,12 @@ func runDispatch(c *rig.Ctx, cs DCase, record bool, st *stats) bool {
 		}
 		if v := w.DrainViol(); len(v) > 0 {
 			return fail("judge", "c03.probe-disabled", fmt.Sprintf("end-to-end op %d (%s): %s", i, d.Op, v[0]), nil)
+		}
+		probeMu.Lock()
+		tv := targetViol
+		probeMu.Unlock()
+		if len(tv) > 0 {
+			return fail("judge", "c03.probe-wrong-target", fmt.Sprintf("end-to-end op %d (%s): %s", i, d.Op, tv[0]), nil)
 		}
 		if v := w.DrainDecisionViol(); len(v) > 0 {
 			return fail("judge", "c03.probe-decision", fmt.Sprintf("end-to-end op %d (%s): %s; only the answer HTTP 200 makes an endpoint healthy", i, d.Op, v[0]), nil)
@@ -672,6 +729,11 @@ func genDispatch(c *rig.Ctx) DCase {
 			t := ref(r.Intn(ns))
 			if len(servers) > 0 && r.Intn(3) != 0 {
 				t = servers[r.Intn(len(servers))].Stub
+			}
+			if r.Intn(3) == 0 {
+				// the endpoint's transport and clientset are rebuilt (what GatewayHealthCheck does after three probes whose
+				// body read times out); the probes and requests after it must still concern this endpoint's server
+				cs.Dispatch = append(cs.Dispatch, DOp{Op: "reset", Stub: t, Answers: answers()})
 			}
 			cs.Dispatch = append(cs.Dispatch, DOp{Op: "trigger", Stub: t, Answers: answers()})
 		default:
